@@ -59,6 +59,16 @@
 //!                    literals, names, keys, parameter names and types (`history_batch(k)`), then the same again, shuffled,
 //!                    alternating old and new, and single expressions with 65 / 130 / 300 distinct patterns; every answer
 //!                    against the value written next to the text (any bounded per-thread cache must evict).
+//! * `reentrant`      impl ⊨ spec, in-process with located panics: built-ins invoked WHILE a built-in or an iteration
+//!                    construct is running. `sort` inside the ordering function of `sort`, two and three levels deep, on
+//!                    lists of 0..3 items at every level (expected order computed here from the generated numbers), the
+//!                    same inside `for` / `some` / `every` / filter / `if` / list / user-function bodies and ordering
+//!                    functions (positional and named `sort`); recursion through a user function that sorts; and EVERY name
+//!                    of the regenerated table of built-in names × 34 argument shapes (small valid arguments of every kind)
+//!                    × 3 lists inside 12 drivers (ordering function of `sort`, positional / named / nested; `for`, `some`,
+//!                    `every`, filter, function literal, context function, and mixtures), each driver written so that its
+//!                    value does not depend on what the inner built-in returns, only on its returning: the value is
+//!                    written next to the text. A panic (located) or another answer is a disagreement with the property.
 
 use crate::c10::{compare_streams, impl_tokens, tokenize_request};
 use crate::model::Model;
@@ -1103,6 +1113,7 @@ pub fn run(cfg: &Cfg) -> Report {
         "scope-ops" => scope_ops(&mut rep, &mut model, &mut rng, thorough),
         "longest-name" => longest_name(&mut rep, &mut model, &mut rng, thorough),
         "temporal-extreme" => temporal_extreme(&mut rep, &mut model, &mut rng, thorough),
+        "reentrant" => reentrant(&mut rep, &mut model, &mut rng, thorough),
         _ => {}
       }
     }
@@ -1706,6 +1717,9 @@ pub fn run(cfg: &Cfg) -> Report {
 
   // ------------------------------------------------------------------ longest-name: impl = model
   longest_name(&mut rep, &mut model, &mut rng, thorough);
+
+  // ------------------------------------------------------------------ reentrant: built-ins invoked while a built-in / an iteration runs
+  reentrant(&mut rep, &mut model, &mut rng, thorough);
 
   // ------------------------------------------------------------------ process-level runner (validation)
   let workers = std::thread::available_parallelism().map(|n| n.get()).unwrap_or(4).min(12);
@@ -3304,4 +3318,287 @@ fn longest_name(rep: &mut Report, model: &mut Model, rng: &mut Rng, thorough: bo
       rep.sample(json!({"family": "longest-name", "text": text.chars().take(200).collect::<String>(), "model": want}));
     }
   }
+}
+
+// ------------------------------------------------------------------------------------------
+// family `reentrant`: built-ins invoked while a built-in (or an iteration construct) is running
+// ------------------------------------------------------------------------------------------
+
+/// Argument shapes of a built-in invoked inside an ordering function / body: `X` and `Y` stand for the two
+/// bound names. Small valid arguments for every kind of built-in (numbers, strings, lists, ranges, temporal
+/// values, contexts, functions); a shape that does not fit a built-in gives null, which is an answer too.
+const RE_SHAPES: [&str; 34] = [
+  "()",
+  "(X)",
+  "(X, Y)",
+  "(X, Y, 1)",
+  "(X, Y, X)",
+  "([X, Y])",
+  "([X, Y], X)",
+  "([X, Y], 1)",
+  "([X, Y], 1, 1)",
+  "([X, Y], [Y, X])",
+  "([[X], [Y, X]])",
+  "([Y, X], function(p, q) p < q)",
+  "([Y, X, Y], function(p, q) string(p) < string(q))",
+  "(string(X))",
+  "(string(X), string(Y))",
+  "(\"abc\", \"b\")",
+  "(\"abc\", \"b\", \"c\")",
+  "(\"abc\", 1, 1)",
+  "(\"1 000,5\", \" \", \",\")",
+  "(1.5, 1)",
+  "(7, 2)",
+  "(true)",
+  "([true, false])",
+  "(2020, 1, 2)",
+  "(\"2020-01-02\")",
+  "(\"12:00:00\")",
+  "(\"2020-01-02T12:00:00\")",
+  "(\"P1D\")",
+  "(date(\"2020-01-02\"))",
+  "(date(\"2020-01-02\"), date(\"2021-03-04\"))",
+  "(1, [1..3])",
+  "([1..2], [2..3])",
+  "({a: X, b: Y})",
+  "({a: X, b: Y}, \"a\")",
+];
+
+/// The lists the drivers iterate over / sort, the ordering of their items in FEEL (over `x`, `y`) and the sorted
+/// list written out.
+const RE_LISTS: [(&str, &str, &str); 3] = [
+  ("[3, 1, 2]", "x < y", "[1, 2, 3]"),
+  ("[\"b\", \"a\", \"c\"]", "x < y", "[\"a\", \"b\", \"c\"]"),
+  ("[[3, 9], [2, 5], [7, 1]]", "x[1] < y[1]", "[[2, 5], [3, 9], [7, 1]]"),
+];
+
+/// Drivers: constructs that evaluate a user expression (over `x` and `y`, or `item`) while they run. `BODY` is
+/// the user expression, `L` the list, `ORD` the ordering of the items; the value is written next to the text
+/// (`SORTED` = the sorted list) and does not depend on what `BODY` returns, only on `BODY` returning.
+const RE_DRIVERS: [(&str, &str, &str); 12] = [
+  ("sort", "sort(L, function(x, y) if (BODY) = null then ORD else ORD)", "SORTED"),
+  ("sort-named", "sort(precedes: function(x, y) if (BODY) = null then ORD else ORD, list: L)", "SORTED"),
+  ("sort-in-sort", "sort(L, function(x, y) if sort([y, x, y], function(x, y) if (BODY) = null then ORD else ORD) = null then ORD else ORD)", "SORTED"),
+  ("for", "count(for x in L, y in L return BODY)", "9"),
+  ("some", "some x in L, y in L satisfies if (BODY) = null then false else false", "false"),
+  ("every", "every x in L, y in L satisfies if (BODY) = null then true else true", "true"),
+  ("filter", "count(L[if (BODY_ITEM) = null then true else true])", "3"),
+  ("function", "(function(x, y) if (BODY) = null then 1 else 1)(L[1], L[2])", "1"),
+  ("context-function", "{f: function(x, y) if (BODY) = null then 1 else 1, r: f(L[1], L[2]) + f(L[2], L[3])}.r", "2"),
+  ("sort-of-for", "sort(for x in L, y in [L[1]] return if (BODY) = null then x else x, function(x, y) ORD)", "SORTED"),
+  ("for-in-sort", "sort(L, function(x, y) if (for i in [x, y] return BODY) = null then ORD else ORD)", "SORTED"),
+  ("filter-in-sort", "sort(L, function(x, y) if [x, y][if (BODY_ITEM) = null then true else true] = null then ORD else ORD)", "SORTED"),
+];
+
+fn re_fill(template: &str, list: &str, ord: &str, body: &str) -> String {
+  let body_item = body.replace('X', "item").replace('Y', "item");
+  let body_xy = body.replace('X', "x").replace('Y', "y");
+  template.replace('L', list).replace("ORD", ord).replace("BODY_ITEM", &body_item).replace("BODY", &body_xy)
+}
+
+fn re_list(items: &[i64]) -> String {
+  format!("[{}]", items.iter().map(|n| n.to_string()).collect::<Vec<_>>().join(", "))
+}
+
+fn re_lists(items: &[Vec<i64>]) -> String {
+  format!("[{}]", items.iter().map(|l| re_list(l)).collect::<Vec<_>>().join(", "))
+}
+
+/// `k` lists of 0..=3 numbers, all numbers distinct (1..=60), so that the least items differ.
+fn re_gen_lists(rng: &mut Rng, k: usize, pool: &mut Vec<i64>) -> Vec<Vec<i64>> {
+  (0..k)
+    .map(|_| {
+      let m = rng.below(4) as usize;
+      (0..m).filter_map(|_| if pool.is_empty() { None } else { Some(pool.swap_remove(rng.below(pool.len() as u64) as usize)) }).collect()
+    })
+    .collect()
+}
+
+/// Nested sorts with their values written out: (sub-family, text, value). The key of a list of numbers is its least
+/// item (100 for the empty list), found by sorting it INSIDE the ordering function of the outer sort; the key of
+/// a list of lists is the least key of its items, found by sorting it (with the two-level ordering) inside the
+/// ordering function of the outermost sort. The expected order is computed here from the numbers generated.
+fn re_nested(rng: &mut Rng, rounds: usize) -> Vec<(String, String, String)> {
+  let key2 = |v: &str| format!("concatenate(sort({}, function(p, q) p < q), [100])[1]", v);
+  let ord2 = format!("function(a, b) {} < {}", key2("a"), key2("b"));
+  let key3 = |v: &str| format!("concatenate(sort(concatenate(sort({}, {}), [[]])[1], function(p, q) p < q), [100])[1]", v, ord2);
+  let ord3 = format!("function(u, v) {} < {}", key3("u"), key3("v"));
+  let k2 = |l: &Vec<i64>| l.iter().copied().min().unwrap_or(100);
+  let k3 = |a: &Vec<Vec<i64>>| a.iter().map(k2).min().unwrap_or(100);
+  let mut out = vec![];
+  for round in 0..rounds {
+    // two levels: every outer size 0..=3 (the first rounds: every inner size as well)
+    for k in 0..=3usize {
+      let mut pool: Vec<i64> = (1..=60).collect();
+      let mut lists = re_gen_lists(rng, k, &mut pool);
+      if round < 4 {
+        for l in lists.iter_mut() {
+          l.truncate(round);
+          while l.len() < round {
+            l.push(pool.pop().unwrap_or(0));
+          }
+        }
+      }
+      let mut keys: Vec<i64> = lists.iter().map(k2).collect();
+      keys.sort();
+      keys.dedup();
+      if keys.len() < lists.len() {
+        // equal keys (two empty lists): the order among them is not stated; the lists are equal then, except at round 0
+        if lists.iter().filter(|l| l.is_empty()).count() != lists.len() - keys.len() + 1 {
+          continue;
+        }
+      }
+      let mut sorted = lists.clone();
+      sorted.sort_by_key(k2);
+      let text = format!("sort({}, {})", re_lists(&lists), ord2);
+      out.push(("nested-2".to_string(), text, re_lists(&sorted)));
+      // the inner sort alone, on every size
+      for l in &lists {
+        let mut s = l.clone();
+        s.sort();
+        out.push(("plain".to_string(), format!("sort({}, function(p, q) p < q)", re_list(l)), re_list(&s)));
+        s.reverse();
+        out.push(("sort-of-sort".to_string(), format!("sort(sort({}, function(p, q) p < q), function(p, q) p > q)", re_list(l)), re_list(&s)));
+      }
+    }
+    // three levels
+    for k in 0..=3usize {
+      let mut pool: Vec<i64> = (1..=60).collect();
+      let groups: Vec<Vec<Vec<i64>>> = (0..k)
+        .map(|_| {
+          let n = if round < 4 { round } else { rng.below(4) as usize };
+          re_gen_lists(rng, n, &mut pool)
+        })
+        .collect();
+      let mut keys: Vec<i64> = groups.iter().map(k3).collect();
+      keys.sort();
+      keys.dedup();
+      if keys.len() < groups.len() {
+        continue;
+      }
+      // inside a group the lists must have distinct keys too (the ordering of the middle sort)
+      if groups.iter().any(|g| {
+        let mut ks: Vec<i64> = g.iter().map(k2).collect();
+        ks.sort();
+        ks.dedup();
+        ks.len() < g.len()
+      }) {
+        continue;
+      }
+      let mut sorted = groups.clone();
+      sorted.sort_by_key(k3);
+      let shown = |gs: &Vec<Vec<Vec<i64>>>| format!("[{}]", gs.iter().map(|g| re_lists(g)).collect::<Vec<_>>().join(", "));
+      out.push(("nested-3".to_string(), format!("sort({}, {})", shown(&groups), ord3), shown(&sorted)));
+    }
+  }
+  out
+}
+
+/// The nested sort `e` (value `v`) inside the bodies of the other constructs, values written out.
+fn re_wrapped(e: &str, v: &str) -> Vec<(String, String, String)> {
+  vec![
+    ("in-for".to_string(), format!("for i in [1, 2] return {}", e), format!("[{}, {}]", v, v)),
+    ("in-some".to_string(), format!("some i in [1, 2] satisfies {} = {}", e, v), "true".to_string()),
+    ("in-every".to_string(), format!("every i in [1, 2] satisfies {} = {}", e, v), "true".to_string()),
+    ("in-filter".to_string(), format!("[1, 2][{} = {}]", e, v), "[1, 2]".to_string()),
+    ("in-function".to_string(), format!("(function(i) {})(1)", e), v.to_string()),
+    ("in-context-function".to_string(), format!("{{f: function(i) {}, r: [f(1), f(2)]}}.r", e), format!("[{}, {}]", v, v)),
+    ("in-ordering-function".to_string(), format!("sort([2, 1], function(m, n) if {} = {} then m < n else m > n)", e, v), "[1, 2]".to_string()),
+    ("in-named-sort".to_string(), format!("sort(precedes: function(m, n) if {} = {} then m < n else m > n, list: [2, 3, 1])", e, v), "[1, 2, 3]".to_string()),
+    ("in-if".to_string(), format!("if {} = {} then 1 else 2", e, v), "1".to_string()),
+    ("in-list".to_string(), format!("[{}, {}]", e, e), format!("[{}, {}]", v, v)),
+  ]
+}
+
+fn reentrant(rep: &mut Report, model: &mut Model, rng: &mut Rng, thorough: bool) {
+  // every name of the regenerated table of built-in names, and the ones read from the source now
+  let mut bifs: Vec<String> = crate::sexp::Sexp::parse(&model.ask("(c10 bifnames)"))
+    .and_then(|x| x.as_list().map(|l| l.iter().filter_map(sexp_text).collect()))
+    .unwrap_or_default();
+  for b in bif_names() {
+    if !bifs.contains(&b) {
+      bifs.push(b);
+    }
+  }
+  rep.extra.insert("reentrant_bif_names".into(), json!(bifs.len()));
+  // (sub-family, text, written-out value or "" when only an answer is demanded)
+  let mut cases: Vec<(String, String, String)> = vec![];
+  // 1. nested sorts, two and three levels, 0..3 items at every level; the same inside other constructs
+  let nested = re_nested(rng, if thorough { 400 } else { 24 });
+  for (i, (fam, e, v)) in nested.iter().enumerate() {
+    cases.push((fam.clone(), e.clone(), v.clone()));
+    if fam.starts_with("nested") && (thorough || i % 3 == 0) {
+      for (w, text, value) in re_wrapped(e, v) {
+        cases.push((format!("{}:{}", fam, w), text, value));
+      }
+    }
+  }
+  // 2. recursion through a user function that sorts (an answer is demanded, whatever the evaluator makes of the recursion)
+  for n in 0..=3 {
+    cases.push((
+      "recursive-function".to_string(),
+      format!("{{f: function(l, n) if n <= 0 then l else sort(f(l, n - 1), function(x, y) if count(f([y, x], n - 1)) = 2 then x < y else x < y), r: f([3, 1, 2], {})}}.r", n),
+      String::new(),
+    ));
+    cases.push((
+      "function-chain".to_string(),
+      format!("{{s: function(l) sort(l, function(x, y) x < y), g: function(l, n) if n <= 0 then s(l) else sort(l, function(x, y) s([y, x])[1] = x and s([x, y, {}])[1] = x), r: g([3, 1, 2], {})}}.r", 9 + n, n),
+      // the value is demanded where the sorting function is called directly; whether the ordering function inside `g`
+      // sees the entry `s` is a matter of closures, not of this property: an answer is demanded there
+      if n == 0 { "[1, 2, 3]".to_string() } else { String::new() },
+    ));
+  }
+  // 3. every built-in × every argument shape inside every driver
+  for b in &bifs {
+    for shape in RE_SHAPES {
+      let body = format!("{}{}", b, shape);
+      for (li, (list, ord, sorted)) in RE_LISTS.iter().enumerate() {
+        let extra = 1 + rng.below(RE_DRIVERS.len() as u64 - 1) as usize;
+        for (di, (driver, template, value)) in RE_DRIVERS.iter().enumerate() {
+          // quick tier: the ordering function of `sort` always, one more driver by lot; the list of numbers with every driver for `sort` itself
+          if !(thorough || di == 0 || di == extra || (b == "sort" && li == 0)) {
+            continue;
+          }
+          cases.push((format!("bif-in-{}", driver), re_fill(template, list, ord, &body), value.replace("SORTED", sorted)));
+        }
+      }
+    }
+  }
+  let scope = Scope::default();
+  let mut reported = 0;
+  for (fam, text, want) in &cases {
+    let observed = located(|| {
+      let node = dmntk_feel_parser::parse_expression(&scope, text, false).map_err(|e| format!("parse: {}", e))?;
+      dmntk_feel_evaluator::evaluate(&scope, &node).map_err(|e| format!("evaluate: {}", e))
+    });
+    rep.case(&format!("reentrant|{}", text), true);
+    rep.hit(&format!("reentrant:{}", fam.split(':').next().unwrap_or("")));
+    let got = match observed {
+      Err(loc) => {
+        let file = loc.split(':').next().unwrap_or("").to_string();
+        rep.hit("reentrant:panic");
+        if reported < 20 {
+          rep.disagree(Kind::ImplVsSpec, "reentrant", &format!("panic {} (reentrant)", file), text, &format!("panicked at {}", loc), if want.is_empty() { "a value or an error" } else { want });
+          reported += 1;
+        }
+        continue;
+      }
+      Ok(Err(e)) => format!("error: {}", e),
+      Ok(Ok(v)) => plain(&v),
+    };
+    if want.is_empty() {
+      rep.hit("reentrant:answered");
+    } else if &got == want {
+      rep.hit("reentrant:as-written");
+    } else {
+      rep.hit("reentrant:other-answer");
+      if reported < 20 {
+        let sub = fam.split(':').next().unwrap_or("");
+        let sig = if sub.starts_with("bif-in-") { "reentrant: a construct whose body invokes a built-in does not return the written-out value".to_string() } else { format!("reentrant: {} does not return the written-out value", sub) };
+        rep.disagree(Kind::ImplVsSpec, "reentrant", &sig, text, &got, want);
+        reported += 1;
+      }
+    }
+  }
+  rep.extra.insert("reentrant_evaluations".into(), json!(cases.len()));
 }
